@@ -28,6 +28,16 @@ CHECKS = {
             'DESIGN.md §4 C14',
             'Trusted: nightly rustc MIR; std Iterator::filter_map. Not decided: traversal order for every tree shape; renaming invariance follows only as far as classification and error provenance.',
             'closure tabulation by abstract interpretation + sibling CFG cross-check + who-may-construct rule'),
+    'C05': ('other',
+            'Clause level: (S5.1) on every path through the separator branch of the tree builder the sequence node left on top of the stack received a fresh placeholder as its last child (all four sub-branches, path enumeration by abstract interpretation); (S5.2) collapsing absorbs only sequence nodes, never the brace level\'s RootNode (explicit guard or precedence table); (S5.3) evaluation arms Tuple -> tuple of all arguments, Chain -> last argument, empty RootNode -> Empty; (S5.4) Tuple binds tighter than Chain. Tree equality for all mixed programs is not decided.',
+            'DESIGN.md §4 C05',
+            'Trusted: nightly rustc MIR; std Vec push/pop semantics. Not decided: that the root_stack algorithm yields the reference tree for every program; the clauses are necessary conditions that failed for `1, 2; 3` and `1; 2, 3; 4` before the fixes.',
+            'sibling-branch must-pass-through rule over enumerated MIR paths + precedence-table evaluation of the absorb guard'),
+    'C13': ('other',
+            'Clause level: feasible-kind analysis of the two insertion modes of insert_back_prioritized (abstract interpretation once per operator kind): plain push infeasible for every arity-2 operator, rotation infeasible for parenthesis groups and leaves; parenthesis accounting of `(`, `)` and end of input by dominance rules; every fixed-arity arm of Operator::eval/eval_mut checks its arity before any other outcome (must-pass-through). Completeness of rejection is not decided.',
+            'DESIGN.md §4 C13',
+            'Trusted: nightly rustc MIR; operator tables (C02). The recursive descent of insert_back_prioritized is covered inductively. Not decided: that every ill-formed token sequence is rejected.',
+            'per-kind abstract interpretation (feasible-kind analysis) + dominance / must-pass-through rules'),
 }
 
 PENDING_REASON = 'check not yet built in this revision of the framework (design in DESIGN.md); not claimed until its rules run'
